@@ -897,6 +897,65 @@ fn in_scope_for(p: &Prepared, prop: &str) -> bool {
     }
 }
 
+/// A GLR parser object that has already parsed other inputs must answer like a fresh one (which the main pass
+/// compares with the LR parser / the oracles): accept/reject and the first tree.
+pub fn judge_glr_history(p: &Prepared, hist: &[String], rep: &mut Rep, prop: &str) {
+    let Some((_, dyg)) = &p.glr else { return };
+    if hist.len() < 2 {
+        return;
+    }
+    let summary = |r: rustemo::Result<rustemo::Forest<'_, str, dynp::Pk, dynp::Tk>>| -> String {
+        match r {
+            Err(e) => format!("Err@{:?}", err_info(&e).0.map(|s| s.start.pos)),
+            Ok(f) => match f.get_first_tree() {
+                Some(t) => {
+                    let mut b = TreeBuilder::new();
+                    let tn: LTree = t.build::<_, dynp::St>(&mut b);
+                    let mut s = String::from("Ok ");
+                    render_norm(&tn, &mut s);
+                    s
+                }
+                None => "Ok <no tree>".into(),
+            },
+        }
+    };
+    let agj = p.g.to_json();
+    let case = |upto: usize, extra: Value| json!({"grammar": p.text, "ag": agj, "family": p.family, "glr_history": &hist[..upto], "extra": extra});
+    crate::rep::watchdog::set(|| case(hist.len(), json!(null)).to_string());
+    let mut fresh: Vec<Option<String>> = vec![];
+    for input in hist {
+        dynp::set_step_limit(STEP_BUDGET);
+        fresh.push(guarded(|| summary(dyg.glr_parse(input))).ok());
+    }
+    if fresh.iter().any(|f| f.is_none()) {
+        rep.count("panic_or_step_budget_not_judged_here", 1);
+        return;
+    }
+    rep.count("glr_parser_object_histories", 1);
+    let mut done = 0usize;
+    let mut mismatch: Option<(usize, String)> = None;
+    let r = guarded(|| {
+        dyg.glr_session(|parse| {
+            for (k, input) in hist.iter().enumerate() {
+                dynp::set_step_limit(STEP_BUDGET);
+                let got = summary(parse(input));
+                done = k + 1;
+                if Some(&got) != fresh[k].as_ref() {
+                    mismatch = Some((k, got));
+                    break;
+                }
+            }
+        })
+    });
+    rep.count("glr_parser_object_parses", done as u64);
+    let sig = |kind: &str, upto: usize| format!("glr-reuse-{}:{}:{}", kind, fnv(&p.text), fnv(&hist[..upto].join("\u{1}")));
+    match (r, mismatch) {
+        (Err(pm), _) => rep.violation(prop, &sig("panic", done + 1), &format!("a GLR parser object that had parsed {} input(s) before {} on input {:?}, which a fresh object answers with {}", done, pm.map(|m| format!("panicked ({m})")).unwrap_or("exceeded the step budget".into()), hist[done.min(hist.len() - 1)], fresh[done.min(hist.len() - 1)].as_deref().unwrap_or("?")), case((done + 1).min(hist.len()), json!(null))),
+        (Ok(()), Some((k, got))) => rep.violation(prop, &sig("differs", k + 1), &format!("a GLR parser object that had parsed {} input(s) before answers {:?} with {} but a fresh object with {}", k, hist[k], got.chars().take(120).collect::<String>(), fresh[k].as_deref().unwrap_or("?").chars().take(120).collect::<String>()), case(k + 1, json!(null))),
+        _ => {}
+    }
+}
+
 pub fn run_grammar(g: &AG, name: &str, wd: &Workdir, rep: &mut Rep, prop: &str, maxlen: usize, rng: &mut crate::rng::Rng, family: u8) {
     rep.count("grammars_generated", 1);
     let Some(p) = prepare(g, wd, rep, prop, family) else { return };
@@ -991,6 +1050,24 @@ pub fn run_grammar(g: &AG, name: &str, wd: &Workdir, rep: &mut Rep, prop: &str, 
             }
         }
     }
+    if prop == "C07" || prop == "C03" {
+        // one GLR parser object over a history of these inputs (sentences and non-sentences interleaved)
+        let mut hist: Vec<String> = vec![];
+        for _ in 0..24 {
+            let budget = rng.range(0, l + 6);
+            if let Some(mut w) = random_sentence(g, rng, budget) {
+                if w.len() > 30 {
+                    continue;
+                }
+                if rng.chance(0.4) && !w.is_empty() {
+                    let i = rng.below(w.len());
+                    w[i] = rng.below(g.terms.len());
+                }
+                hist.push(hostile(g, &w, rng).0);
+            }
+        }
+        judge_glr_history(&p, &hist, rep, prop);
+    }
     let evals = *rep.counters.get("evaluations").unwrap_or(&0) - before_eval;
     if prop == "C01" && acc > 0 && rej > 0 {
         rep.distinct("nontrivial", fnv(&p.text));
@@ -1064,6 +1141,13 @@ fn replay(path: &str, wd: &Workdir, rep: &mut Rep, prop: &str) {
     let g = AG::from_json(&case["ag"]);
     if case["lex"].as_bool() == Some(true) {
         run_lex_grammar(&g, wd, rep, 5, case["input"].as_str(), prop);
+        return;
+    }
+    if let Some(h) = case["glr_history"].as_array() {
+        let hist: Vec<String> = h.iter().map(|x| x.as_str().unwrap().to_string()).collect();
+        if let Some(p) = prepare(&g, wd, rep, prop, case["family"].as_u64().unwrap_or(0) as u8) {
+            judge_glr_history(&p, &hist, rep, prop);
+        }
         return;
     }
     if case["overlap"].as_bool() == Some(true) {
